@@ -642,6 +642,11 @@ def parse_merchants(content: str, match_mode: str = 'first_match') -> MerchantEn
 # CSV Conversion (Backwards Compatibility)
 # =============================================================================
 
+def _quote_pattern(pattern: str) -> str:
+    """Escape a regex so that it survives being read back as a quoted string literal."""
+    return pattern.replace('\\', '\\\\').replace('"', '\\"')
+
+
 def _modifier_to_expr(parsed_pattern) -> str:
     """Convert parsed CSV modifiers to expression string."""
     conditions = []
@@ -708,9 +713,8 @@ def csv_rule_to_merchant_rule(
 
     # Regex pattern match
     if pattern:
-        # Escape any special characters in the pattern for the match expression
-        # We use regex() function for the pattern
-        parts.append(f'regex("{pattern}")')
+        # The pattern ends up inside a quoted string literal of the match expression
+        parts.append(f'regex("{_quote_pattern(pattern)}")')
 
     # Add modifier conditions
     modifier_expr = _modifier_to_expr(parsed_pattern)
@@ -812,8 +816,8 @@ def csv_to_merchants_content(csv_rules: List[Tuple]) -> str:
         # Build match expression
         parts = []
         if pattern:
-            # Pattern is already properly escaped for regex use, write as-is
-            parts.append(f'regex("{pattern}")')
+            # The pattern ends up inside a quoted string literal of the match expression
+            parts.append(f'regex("{_quote_pattern(pattern)}")')
 
         modifier_expr = _modifier_to_expr(parsed) if parsed else ""
         if modifier_expr and not modifier_expr.startswith("#"):
